@@ -68,7 +68,22 @@ impl Bitmap {
     }
 }
 
-pub fn run_batch(seed: u64, start: u64, count: u64, workers: usize, known: &[Known], track_distinct: bool) -> BatchResult {
+/// Per-worker "in flight" marker for crash isolation: the supervisor process reads these
+/// after an abnormal death of the batch process to find the runs that were executing.
+pub struct Inflight {
+    file: std::fs::File,
+}
+impl Inflight {
+    pub fn open(dir: &std::path::Path, worker: usize) -> Option<Inflight> {
+        std::fs::OpenOptions::new().create(true).write(true).truncate(true).open(dir.join(format!("w{}", worker))).ok().map(|file| Inflight { file })
+    }
+    pub fn mark(&self, chunk: u64) {
+        use std::os::unix::fs::FileExt;
+        let _ = self.file.write_at(format!("{:020}\n", chunk).as_bytes(), 0);
+    }
+}
+
+pub fn run_batch(seed: u64, start: u64, count: u64, workers: usize, known: &[Known], track_distinct: bool, inflight: Option<&std::path::Path>) -> BatchResult {
     let nchunks = (count + CHUNK - 1) / CHUNK;
     let next = AtomicU64::new(0);
     let min_viol = AtomicU64::new(u64::MAX);
@@ -76,9 +91,11 @@ pub fn run_batch(seed: u64, start: u64, count: u64, workers: usize, known: &[Kno
     let bitmap = Bitmap::new(bits);
     let results: Mutex<Vec<(Stats, Vec<(u64, u64)>, Option<Found>, Option<(u64, String)>, Vec<(usize, u64)>)>> = Mutex::new(Vec::new());
     std::thread::scope(|sc| {
-        for _ in 0..workers.max(1) {
-            sc.spawn(|| {
+        for widx in 0..workers.max(1) {
+            let (next, min_viol, bitmap, results) = (&next, &min_viol, &bitmap, &results);
+            sc.spawn(move || {
                 crate::exec::install_panic_hook();
+                let marker = inflight.and_then(|d| Inflight::open(d, widx));
                 let mut st = Stats::new();
                 let mut chunks: Vec<(u64, u64)> = Vec::new();
                 let mut found: Option<Found> = None;
@@ -91,6 +108,9 @@ pub fn run_batch(seed: u64, start: u64, count: u64, workers: usize, known: &[Kno
                     }
                     let lo = start + c * CHUNK;
                     let hi = (lo + CHUNK).min(start + count);
+                    if let Some(mk) = &marker {
+                        mk.mark(c);
+                    }
                     if lo > min_viol.load(Ordering::Relaxed) {
                         continue;
                     }
@@ -120,6 +140,9 @@ pub fn run_batch(seed: u64, start: u64, count: u64, workers: usize, known: &[Kno
                         }
                     }
                     chunks.push((c, d));
+                }
+                if let Some(mk) = &marker {
+                    mk.mark(u64::MAX / 2); // idle
                 }
                 results.lock().unwrap().push((st, chunks, found, herr, khits));
             });
@@ -269,18 +292,27 @@ fn smaller_kind(k: usize) -> Option<usize> {
 pub fn minimise(plan: &Plan, o: &Outcome, budget: u32) -> (Plan, Outcome, u32) {
     let class = o.violation.as_ref().unwrap().class;
     let vop = o.viol_op;
-    let mut best = plan.clone();
-    let mut best_o = o.clone();
-    let mut tried = 0u32;
     let mut scratch = Stats::new();
-    let mut attempt = |cand: &Plan, tried: &mut u32| -> Option<Outcome> {
-        *tried += 1;
+    let mut pred = |cand: &Plan| -> Option<Outcome> {
         let oc = execute(cand, &mut scratch, false);
         if same_failure(&oc, class, vop) {
             Some(oc)
         } else {
             None
         }
+    };
+    minimise_with(plan, o, budget, &mut pred)
+}
+
+/// The shrinking loop itself, generic in how a candidate is judged (in-process execution, or a
+/// child process per candidate when the failure is a crash or a hang).
+pub fn minimise_with(plan: &Plan, o: &Outcome, budget: u32, pred: &mut dyn FnMut(&Plan) -> Option<Outcome>) -> (Plan, Outcome, u32) {
+    let mut best = plan.clone();
+    let mut best_o = o.clone();
+    let mut tried = 0u32;
+    let mut attempt = |cand: &Plan, tried: &mut u32| -> Option<Outcome> {
+        *tried += 1;
+        pred(cand)
     };
     // everything after the failing step is irrelevant
     if let Some(v) = &best_o.violation {
